@@ -253,6 +253,16 @@ func runProgram(c *proto.Case, seed uint64) proto.Run {
 		run.Vars[name] = v
 	}
 
+	for _, name := range c.ReadFiles {
+		if b, err := os.ReadFile(name); err == nil {
+			if run.Files == nil {
+				run.Files = map[string][]byte{}
+			}
+			run.Files[name] = b
+			os.Remove(name)
+		}
+	}
+
 	if c.Events {
 		verifhook.EnableEvents(false)
 		for _, e := range verifhook.DrainEvents() {
